@@ -117,6 +117,18 @@ func randHeader(r *h.Rand) *verifhook.Header {
 		if wide && r.Intn(4) == 0 {
 			s.Body = r.Bytes(r.Intn(5000))
 		}
+		if wide && r.Intn(5) == 0 {
+			// a stanza line longer than the buffers a line reader may use (bufio's 4096, twice that, 64 KiB)
+			long := make([]byte, h.Pick(r, []int{4070, 4088, 4096, 4097, 5000, 8192, 8200, 20000, 65536, 70000})+r.Intn(3))
+			for k := range long {
+				long[k] = byte(33 + r.Intn(94))
+			}
+			if r.Intn(2) == 0 && len(s.Args) > 0 {
+				s.Args[r.Intn(len(s.Args))] = string(long)
+			} else {
+				s.Args = append(s.Args, string(long))
+			}
+		}
 		if len(s.Body) == 0 {
 			s.Body = nil
 		}
